@@ -152,7 +152,7 @@ def run_job_A(h: H, cube, tier, seed, workdir, suppress="", verbose=False) -> Jo
             if m.group("ret"):
                 res.message += f" (returns {m.group('ret')})"
             try:
-                res.cex_args = parse_call(m.group("call"), fn)
+                res.cex_args = enc_args(parse_call(m.group("call"), fn))
             except Exception as e:  # noqa: BLE001
                 res.message += f" [unparsed call: {e}: {m.group('call')}]"
                 verdict = "error"
@@ -225,9 +225,22 @@ def run_job_B(h: H, cube, tier, seed, workdir) -> JobResult:
     return res
 
 
+def enc_args(args):
+    """JSON-safe form of counterexample arguments (bytes -> {"__bytes__": hex})"""
+    def enc(v):
+        if isinstance(v, (bytes, bytearray)):
+            return {"__bytes__": bytes(v).hex()}
+        if isinstance(v, (list, tuple)):
+            return [enc(x) for x in v]
+        if isinstance(v, dict):
+            return {k: enc(x) for k, x in v.items()}
+        return v
+    return {k: enc(v) for k, v in (args or {}).items()}
+
+
 def replay(h: H, cube, args, mode, profile=False, timeout=600):
     env = _base_env(cube, 0, mode)
-    cmd = [PY, "-m", "vf.replay", "--module", h.module, "--func", h.func, "--args", json.dumps(args)]
+    cmd = [PY, "-m", "vf.replay", "--module", h.module, "--func", h.func, "--args", json.dumps(enc_args(args))]
     if profile:
         cmd.append("--profile")
     try:
